@@ -1,7 +1,107 @@
-"""FOLLOW family (always / raise / onDone follow-ups) — filled in below."""
-def specs(n):
-    return []
+"""FOLLOW family: TREE skeletons decorated with follow-ups.
+
+A spec is (tree, mode, x, y):
+  mode 'always' : node x gets  always: {target: #y, guard: armed} + assign disarm
+  mode 'raise'  : node x's entry raises the universal event y (a name)
+  mode 'ondone' : node x (compound/parallel with a final descendant) gets onDone -> #y
+The base is the universal machine, so every source/target pair stays
+available as an external event; `REARM` (root, targetless) re-arms the
+always guard.  maxIterations is 8 so that feedback loops are cut quickly.
+"""
+from __future__ import annotations
+
+from typing import Any, Dict, List, Tuple
+
+from .. import families as F
+
+MAX_ITER = 8
+
+
+def _has_final_desc(n: F.N) -> bool:
+    return any(d.kind == "F" for d in n.descendants())
+
+
+def specs(nmax: int) -> List[tuple]:
+    out: List[tuple] = []
+    for t in F.trees_upto(nmax):
+        nodes = F.flatten(t)
+        real = [n for n in nodes if not n.is_history]
+        for x in real:
+            for y in nodes:
+                out.append((t, "always", x.idx, y.idx))
+        # raise: entry of x raises the universal event source->target
+        for x in real:
+            for s in real:
+                for y in nodes:
+                    # keep the family small: raised event's source is x itself,
+                    # x's parent or the root
+                    if s is x or s is x.parent or s.idx == 0:
+                        out.append((t, "raise", x.idx, f"T{s.idx}_{y.idx}"))
+        for x in real:
+            if x.kind in ("C", "P") and _has_final_desc(x):
+                for y in nodes:
+                    out.append((t, "ondone", x.idx, y.idx))
+    return out
+
+
+def build(spec) -> Tuple[Dict[str, Any], List[F.N], Dict[str, Dict[str, Any]]]:
+    tree, mode, x, y = spec
+    cfg, nodes, events = F.universal_config(tree)
+    cfg["maxIterations"] = MAX_ITER
+    cfg["context"] = {"armed": True}
+    xn = nodes[x]
+    sub = F.cfg_node(cfg, xn)
+    if mode == "always":
+        sub["always"] = [
+            {
+                "target": f"#{nodes[y].id}",
+                "guard": "armed",
+                "actions": [
+                    {"type": "xstate.assign", "params": {"assignment": {"armed": False}}},
+                    "tr:ALWAYS",
+                ],
+            }
+        ]
+        events["ALWAYS"] = {"src": xn.id, "tgt": nodes[y].id, "kind": "always"}
+        F.cfg_node(cfg, nodes[0]).setdefault("on", {})["REARM"] = {
+            "actions": [{"type": "xstate.assign", "params": {"assignment": {"armed": True}}}, "tr:REARM"]
+        }
+        events["REARM"] = {"src": nodes[0].id, "tgt": None, "kind": "N"}
+    elif mode == "raise":
+        sub["entry"] = list(sub.get("entry", [])) + [
+            {"type": "xstate.raise", "params": {"event": y}}
+        ]
+    elif mode == "ondone":
+        sub["onDone"] = {"target": f"#{nodes[y].id}", "actions": ["tr:ONDONE"]}
+        events["ONDONE"] = {"src": xn.id, "tgt": nodes[y].id, "kind": "ondone"}
+    return cfg, nodes, events
+
+
+def guards_for(spec) -> List[str]:
+    return ["armed"]
+
+
+def armed_guard(ctx, event, params=None):
+    return bool(ctx.get("armed"))
+
+
 def explore_c01(spec):
-    raise NotImplementedError
+    from . import c01
+
+    cfg, nodes, events = build(spec)
+    tree, mode, x, y = spec
+    return c01.explore_generic(
+        cfg, nodes, events,
+        label=f"{F.tree_str(tree)}+{mode}({x},{y})",
+        replay=dict(kind="follow", spec=spec),
+        shape_prefix=f"follow={mode}|",
+        guard_impls={"armed": armed_guard},
+    )
+
+
 def replay_c01(payload):
-    raise NotImplementedError
+    from . import c01
+
+    spec = c01._tuplify(payload["spec"])
+    cfg, nodes, events = build(spec)
+    return c01.replay_generic(cfg, nodes, payload, guard_impls={"armed": armed_guard})
